@@ -24,7 +24,7 @@ SPEC = {
         'amd64: int/uint are 64 bit; float32->float64 conversion quiets signalling NaNs (CVTSS2SD)',
     ],
     'trusted_extra': ['modelled, not verified: simpleEncDriver/simpleDecDriver, the generic naked-decoding path and bytesDecReader as far as simple uses them; the typed decoding path and the io reader are outside this check'],
-    'harness_timeout': {'quick': 300, 'thorough': 1500},
+    'harness_timeout': {'quick': 1500, 'thorough': 5400},
 }
 
 
